@@ -33,6 +33,7 @@ def isTerm (i : Nat) : Ev → Bool
   | .discard _ id _ => id == i
   | .lost _ id => id == i
   | .dropped id => id == i
+  | .abandoned id => id == i
   | .handled _ id => id == i
   | _ => false
 
